@@ -230,9 +230,15 @@ func HarnessC12Faults() {
 	s.FaultKind = 1 + zz.Choose("fault.kind", 3)
 	r := NewReconciler(&zzManager{c: s})
 	req := reconcile.Request{NamespacedName: types.NamespacedName{Name: zzCompName}}
-	_, _ = r.Reconcile(context.Background(), req)
+	res0, err0 := r.Reconcile(context.Background(), req)
 	if s.Faulted {
 		zz.Cover("fault-hit")
+		if err0 == nil && !res0.Requeue && res0.RequeueAfter == 0 {
+			// the interrupted reconcile says it is done (no error, no requeue):
+			// nothing will run it again, so the history must be in order already
+			zz.Cover("fault-absorbed")
+			zzCheckPost(s, comp, pre, "after-absorbed-fault-")
+		}
 	}
 	s.FaultAt = -1 // only the first reconcile is interrupted
 	// retries after the fault: two clean reconciles are enough to converge
